@@ -43,6 +43,8 @@ def dest_snapshot(d):
         keys = ["kind", "link", "rdev"]
         if e["kind"] == "file":
             keys += ["size", "sha", "mode", "mtime_ns", "xattr", "uid", "gid"]
+        elif e["kind"] != "link":
+            keys += ["mode"]        # directories and special files: what the creation mask made of the requested mode
         out[p] = tuple((k, repr(e.get(k))) for k in keys)
     return out
 
@@ -146,7 +148,7 @@ def run(ctx, out):
                 "kinds, bytes, link text, mode, mtime ns, xattrs, owner) must equal the reference run's; every trace is projected "
                 "to open/block/finalise/inline events and judged by ConcOutcome.history_ok inside Coq; non-trivial = run with >= 2 "
                 "workers and a multi-block file; plus second copies with --backup numbered over the result of a first copy, many files "
-                "with confusable names (non-UTF-8 twins, backup-like suffixes), same comparison across drivers / workers / seeds; distinct = (case, driver, workers, seed)")
+                "with confusable names (non-UTF-8 twins, backup-like suffixes), same comparison across drivers / workers / seeds; plus trees of directories, FIFOs and files whose creations are held so that they overlap (modes of directories and nodes compared too); distinct = (case, driver, workers, seed)")
     ncases = 6 if quick else 40
     seeds = [1, 2, 3] if quick else list(range(1, 11))
     worker_sets = [1, 2, 4, 16] if quick else [1, 2, 3, 4, 8, 16, 64]
@@ -281,6 +283,50 @@ def run(ctx, out):
                 diff = [p_ for p_ in sorted(set(snap) | set(ref_snap)) if snap.get(p_) != ref_snap.get(p_)][:4]
                 out.violation("overwrite with numbered backups: the destination differs from the reference run's (driver %s, %d workers, seed %r) "
                               "at %r" % (driver, w, kw.get("seed"), diff), rep)
+        shutil.rmtree(d, ignore_errors=True)
+    # ---- directories, special files and regular files created side by side by different threads: what each of them is
+    #      created WITH (the mode left by the process's creation mask) must not depend on what another thread is doing at
+    #      that moment; node creation and directory creation are slowed down so that they overlap in every order
+    ncases3 = 2 if quick else 10
+    for k3 in range(ncases3):
+        d = os.path.join(d0, "sp%d" % k3)
+        src = os.path.join(d, "src")
+        os.makedirs(src)
+        for i in range(rng.choice([16, 24])):
+            sub = os.path.join(src, "d%02d" % i, "inner")
+            os.makedirs(sub)
+            open(os.path.join(sub, "f"), "wb").write(b"x" * rng.randrange(1, 5000))
+            os.chmod(os.path.join(sub, "f"), rng.choice([0o644, 0o600, 0o755]))
+            os.mkfifo(os.path.join(src, "p%02d" % i))
+            os.chmod(os.path.join(src, "p%02d" % i), rng.choice([0o666, 0o640, 0o600, 0o622]))
+            if i % 5 == 0:
+                os.mkfifo(os.path.join(sub, "q"))
+        extra = rng.choice([[], ["--no-perms"], ["--no-perms"]])
+        ref_snap = ref_exit = None
+        runs3 = [("parfile", 1, False)] + [(drv, w, True) for drv in ("parfile", "parblock") for w in ((2, 4) if quick else (1, 2, 4, 16))]
+        for (driver, w, slow) in runs3:
+            dst = os.path.join(d, "dst")
+            shutil.rmtree(dst, ignore_errors=True)
+            argv = [ctx.bins["xcp"], "-r", "-T", "--driver", driver, "-w", str(w)] + extra + ["src", "dst"]
+            rules = [("hold", 20, 0, "mknodat", 0, "*"), ("hold", 3, 0, "mkdir", 0, "*"), ("hold", 3, 0, "mkdirat", 0, "*")] if slow else []
+            r = xcp.run_supervised(sup, argv, d, d, rules=rules, tag="s", timeout_ms=60000)
+            out.case(("nodes-and-dirs", k3, driver, w, slow), nontrivial=slow)
+            out.count("nodes_and_dirs_runs")
+            rep = dict(case="directories, FIFOs and files created side by side; mknod held 20 ms, mkdir 3 ms" if slow else "reference",
+                       argv=argv[1:])
+            snap = dest_snapshot(dst) if os.path.isdir(dst) else {}
+            if ref_snap is None:
+                ref_snap, ref_exit = snap, r.exit
+                if r.exit != 0:
+                    out.violation("reference run failed: %s" % r.stderr[-200:], rep)
+                    break
+            elif r.exit != ref_exit:
+                out.violation("exit status %d differs from the reference run's %d (%s)" % (r.exit, ref_exit, r.stderr[-200:]), rep)
+            elif snap != ref_snap:
+                diff = [p_ for p_ in sorted(set(snap) | set(ref_snap)) if snap.get(p_) != ref_snap.get(p_)][:3]
+                what = ["%r: %s -> %s" % (p_, dict(ref_snap.get(p_, ())).get("mode"), dict(snap.get(p_, ())).get("mode")) for p_ in diff]
+                out.violation("destination differs from the reference run (driver %s, %d workers) while nodes and directories were "
+                              "created side by side: %s" % (driver, w, "; ".join(what)), rep)
         shutil.rmtree(d, ignore_errors=True)
     if ctx.model_ok and minputs:
         res = core.run_model("run_history", minputs, shard=8, tag="c06")
